@@ -2,8 +2,8 @@
 from ..rules import failure, holds, flow, folds
 from .common import declare
 
-RULES = ['PROPAGATE', 'EMIT-AFTER-REL', 'NO-SWALLOWING-GATHER', 'ACC-CONTRACT', 'RERAISE', 'STATE-AFTER-CALL', 'STATE-FROM-RESULT', 'NO-REL-ON-FAIL', 'SYNC-TRANSPORT', 'EMIT-CONVERT', 'FINALLY-NO-JUMP', 'AWAITABLE-RESULT', 'WINDOW-FIFO']
-FLOORS = {'RERAISE': 2, 'STATE-AFTER-CALL': 5, 'STATE-FROM-RESULT': 1, 'NO-REL-ON-FAIL': 1, 'SYNC-TRANSPORT': 3, 'EMIT-CONVERT': 3, 'FINALLY-NO-JUMP': 2, 'AWAITABLE-RESULT': 1, 'WINDOW-FIFO': 6}
+RULES = ['HOLD-BEFORE-FALLIBLE', 'PROPAGATE', 'EMIT-AFTER-REL', 'NO-SWALLOWING-GATHER', 'ACC-CONTRACT', 'RERAISE', 'STATE-AFTER-CALL', 'STATE-FROM-RESULT', 'NO-REL-ON-FAIL', 'SYNC-TRANSPORT', 'EMIT-CONVERT', 'FINALLY-NO-JUMP', 'AWAITABLE-RESULT', 'WINDOW-FIFO']
+FLOORS = {'RERAISE': 2, 'STATE-AFTER-CALL': 5, 'STATE-FROM-RESULT': 1, 'NO-REL-ON-FAIL': 1, 'SYNC-TRANSPORT': 3, 'EMIT-CONVERT': 3, 'FINALLY-NO-JUMP': 2, 'AWAITABLE-RESULT': 1, 'WINDOW-FIFO': 6, 'HOLD-BEFORE-FALLIBLE': 1}
 
 META = {
     'level': "Static analysis of the synchronous delivery chain (_emit, emit, every plain update of core/sinks): no handler path "
@@ -41,9 +41,12 @@ def run(ctx, R):
     R.run(failure.check_finally_no_jump, ctx, R, ('streamz.core', 'streamz.sinks', 'streamz.sources', 'streamz.dask'))
     # 'carried by the awaitable of an asynchronous emit': a sink must hand back whatever awaitable its function returned
     R.run(flow.check_awaitable_result, ctx, R, [c for c in ctx.model.nodes if c.module.name in ('streamz.core', 'streamz.sinks')])
+    # 'the failed element's completion callback is never triggered', coroutine nodes: a failed future looks like a normal return
+    R.run(failure.check_hold_before_fallible, ctx, R, [c for c in ctx.model.nodes if c.module.name == 'streamz.core'])
     # 'the node keeps its previous state': the window history stored in accumulate.state is copied, never edited in place
     R.run(folds.check_window_fifo, ctx, R)
 
 
 META['level'] += ' No gather(..., return_exceptions=True) on the delivery chain (NO-SWALLOWING-GATHER); accumulate commits its state before delivering (ACC-CONTRACT).'
 META['level'] += ' Also: a handler for a general exception type may not swallow a container operation on an element-derived value (key comparison is user code); a sink hands back whatever awaitable its function returned (AWAITABLE-RESULT); the window history kept in accumulate.state is copied, never edited in place (WINDOW-FIFO).'
+META['level'] += ' HOLD-BEFORE-FALLIBLE: a coroutine update() that keeps elements takes its hold before it invokes a user callable (a failed future looks like a normal return to the emitter, which then releases).'
